@@ -626,6 +626,77 @@ SVC_ACCEPTS = [(None, {"k": "absent"}), ("*/*", {"k": "ranges", "rs": [{"t": "*"
                    {"t": "text", "s": "html", "q": 0, "p": 0}, {"t": "*", "s": "*", "q": 100, "p": 0}]})]
 
 
+MODES = [None, "ok", "deny", "bad", "zzzzz"]
+CHAIN = lambda *ks: {"t": "chain", "es": [{"t": "kind", "k": k} for k in ks], "v": 0}  # noqa: E731
+
+
+def cel_map(mode):
+    """{"ok": true, "deny": false}[Request.Header("X-Mode")]"""
+    return {"ok": "holds", "deny": "fails"}.get(mode, "error")
+
+
+def cel_idx(mode):
+    """[true, false][Request.Header("X-Mode").size() - 2]"""
+    return {2: "holds", 3: "fails"}.get(len(mode or ""), "error")
+
+
+def cel_div(mode):
+    """10 / (Request.Header("X-Mode").size() - 2) > 3   (integer division truncating towards zero)"""
+    n = len(mode or "") - 2
+    if n == 0:
+        return "error"
+    q = abs(10) // abs(n) * (1 if n > 0 else -1)
+    return "holds" if q > 3 else "fails"
+
+
+REDIRECT_TO = "http://login.local/sign-in?origin=%2F"
+SVC_REDIRECT_CODES = [300, 301, 302, 303, 307, 308]
+SVC_ODD_REDIRECT_CODES = [305, 309, 399, 400, 404, 410, 451, 503, 599]
+CEL_PATHS = ["/cel/authz", "/cel/attr", "/cel/div", "/cel/stepif", "/cel/ehif", "/cel/ehlast"]
+
+
+def svc_scenario(path, mode):
+    """what the property says about a request to `path` with the X-Mode header `mode`: the class of the answer
+    (None: no failure) and, for the Lean side, how the pipeline ends. None if the path is a plain SVC_PATHS one."""
+    if path.startswith("/redirect/"):
+        code = int(path.rsplit("/", 1)[1])
+        return {"cls": "redirect", "code": code,
+                "ctx": {"exec": "redirect", "code": code, "err": None, "to": REDIRECT_TO + "redirect%2F" + str(code)}}
+    by = {"holds": None, "fails": "authz", "error": "internal"}
+    if path == "/cel/authz":
+        c = cel_map(mode)
+        return {"cls": by[c], "ctx": {"pipe": {"cause": {"celAuthz": c}, "hs": []}}}
+    if path == "/cel/attr":
+        return {"cls": "internal", "ctx": {"pipe": {"cause": {"celAuthz": "error"}, "hs": []}}}
+    if path == "/cel/div":
+        c = cel_div(mode)
+        return {"cls": by[c], "ctx": {"pipe": {"cause": {"celAuthz": c}, "hs": []}}}
+    if path == "/cel/stepif":
+        c = cel_map(mode)
+        return {"cls": {"holds": "authz", "fails": None, "error": "internal"}[c],
+                "ctx": {"pipe": {"cause": {"stepIf": c, "step": {"term": CHAIN("authorization")}}, "hs": []}}}
+    if path == "/cel/ehif":
+        c = cel_map(mode)
+        return {"cls": {"holds": "redirect", "fails": "authn", "error": "internal"}[c],
+                "ctx": {"pipe": {"cause": {"term": CHAIN("authentication")},
+                                 "hs": [{"c": c, "h": "redirect", "to": REDIRECT_TO + "cel%2Fehif"},
+                                        {"c": "holds", "h": "www"}]}}}
+    if path == "/cel/ehlast":
+        c = cel_idx(mode)
+        return {"cls": {"holds": "authn", "fails": "authz", "error": "internal"}[c],
+                "ctx": {"pipe": {"cause": {"term": CHAIN("authorization")},
+                                 "hs": [{"c": "fails", "h": "redirect", "to": REDIRECT_TO + "cel%2Fehlast"},
+                                        {"c": c, "h": "www"}]}}}
+    return None
+
+
+def svc_request(svc, path, accept, acc, mode=None):
+    rq = {"svc": svc, "path": path, "accept": accept, "acc": acc}
+    if mode is not None:
+        rq["hdr"] = {"X-Mode": mode}
+    return rq
+
+
 def gen_svc_case(rng, tmp, plain=False):
     """one assembled stack (configuration) and a batch of requests against its three services"""
     if plain:
@@ -637,16 +708,48 @@ def gen_svc_case(rng, tmp, plain=False):
         # the proxy service has its own configuration section
         pcfg = {"verbose": rng.random() < 0.6, "ov": dict((c, rng.choice(SVC_CODES)) for c in CLASSES)}
         realm, rcode = rng.choice(REALMS), rng.choice([0, 0, 301, 302, 303, 307, 308])
+    rcodes = SVC_REDIRECT_CODES + rng.sample(SVC_ODD_REDIRECT_CODES, 2)
+    services = ("decision", "proxy", "envoy")
+
+    def acc_of():
+        return (None, {"k": "absent"}) if plain else rng.choice(SVC_ACCEPTS)
     reqs = []
     for path, sc in SVC_PATHS.items():
-        for svc in ("decision", "proxy", "envoy"):
+        for svc in services:
             if sc and "only" in sc and svc not in sc["only"]:
                 continue
-            accept, acc = (None, {"k": "absent"}) if plain else rng.choice(SVC_ACCEPTS)
-            reqs.append({"svc": svc, "path": path, "accept": accept, "acc": acc})
+            reqs.append(svc_request(svc, path, *acc_of()))
+    # every redirect code through a handler of its own, on every service
+    for code in rcodes:
+        for svc in services:
+            reqs.append(svc_request(svc, f"/redirect/{code}", *acc_of()))
+    # every CEL path with every mode (true / false / runtime failure), service chosen at random, each service once more
+    for path in CEL_PATHS:
+        for mode in MODES:
+            reqs.append(svc_request(rng.choice(services), path, *acc_of(), mode=mode))
+        for svc in services:
+            reqs.append(svc_request(svc, path, *acc_of(), mode=rng.choice(MODES)))
     rng.shuffle(reqs)
-    return {"fam": "errmap", "op": "svc", "cfg": cfg, "pcfg": pcfg, "realm": realm, "rcode": rcode, "reqs": reqs,
-            "tmp": tmp}
+    return {"fam": "errmap", "op": "svc", "cfg": cfg, "pcfg": pcfg, "realm": realm, "rcode": rcode, "rcodes": rcodes,
+            "reqs": reqs, "tmp": tmp}
+
+
+MECH_CODES = [None, 0, 300, 301, 302, 303, 304, 305, 307, 308, 309, 399, 200, 204, 299, 400, 404, 500, 599, 100, 99, 999,
+              1000, 1, -1, -302]
+
+
+def mech_cases():
+    """a redirect error handler created from configuration with every interesting code (None: not configured)"""
+    out = []
+    for code in MECH_CODES:
+        for verbose in (False, True):
+            c = {"fam": "errmap", "op": "mech", "code": code or 0, "to": "http://login.local/sign-in?next=%2Fa",
+                 "cfg": {"verbose": verbose, "ov": dict((x, 0) for x in CLASSES)}, "accept": None,
+                 "acc": {"k": "absent"}}
+            if code is None:
+                c["unset"] = True
+            out.append(c)
+    return out
 
 
 if __name__ == "__main__":
